@@ -198,6 +198,13 @@ def valid_text(draw):
     rows = [list(r) for r in draw(popgen.dirty_rows(schema_js, max_rows=2))]
     sc = Schema(schema_js)
     stm = schema_statements(schema_js) + rows_statements(sc, rows, draw(st.lists(st.booleans(), min_size=1, max_size=3)), False)
+    # further named INSERTs that list only some of the columns of their class (another selection each time)
+    for cn, row in rows[:draw(st.integers(0, 3))]:
+        cols = [n for n, _t in sc.attrs(cn) if n in row]
+        if len(cols) >= 2:
+            keep = draw(st.lists(st.sampled_from(cols), min_size=1, max_size=len(cols) - 1, unique=True))
+            stm.append('INSERT INTO %s (%s) VALUES (%s);' % (cn, ', '.join(keep), ', '.join(
+                gen_schema.sql_value(sc.attr_type(cn, n), row[n]) for n in keep)))
     order = draw(st.permutations(list(range(len(stm)))))
     return '\n'.join(stm[i] for i in order) + '\n'
 
